@@ -402,3 +402,39 @@ TRUSTED_BASE = [
     "clvmr 0.16.2 as the consensus oracle (evaluator, serialiser, tree hash)",
     "Lean compiler for the native model driver (proofs do not depend on compiled code)",
 ]
+
+
+def correspond(chk, sub, lines, norm_model=None, norm_impl=None, skip=None, sig=None, label=None,
+               max_report=5, **kw):
+    """run model and implementation on the same lines; record disagreements.
+    returns (model_out, impl_out)."""
+    ok, out = build_harness()
+    if not ok:
+        chk.fail("proof", "harness-build", {}, out[-1500:])
+        return [], []
+    mo = run_model(sub, lines, **kw)
+    io = run_impl(sub, lines, **kw)
+    nbad = 0
+    for l, a, b in zip(lines, mo, io):
+        if skip and skip(l, a, b):
+            chk.count(f"{label or sub}:skipped")
+            continue
+        a2 = norm_model(a) if norm_model else a
+        b2 = norm_impl(b) if norm_impl else b
+        if a2 != b2:
+            nbad += 1
+            if nbad <= max_report:
+                s = sig(l, a, b) if sig else f"corr:{label or sub}"
+                chk.fail("correspondence", s, {"sub": sub, "line": l}, {"model": a[:300], "impl": b[:300]})
+    chk.count(f"{label or sub}:lines", len(lines))
+    chk.count(f"{label or sub}:disagreements", nbad)
+    chk.cov["traces_validated_against_impl"] = chk.cov.get("traces_validated_against_impl", 0) + len(lines) - nbad
+    return mo, io
+
+
+def std_obligations(chk, leanchecker=None):
+    ob = Obligations(chk.pid)
+    ok = ob.check(leanchecker=(chk.tier == "thorough") if leanchecker is None else leanchecker)
+    chk.obligations(ob, ok)
+    chk.cov["trusted_base"] = list(TRUSTED_BASE)
+    return ok
